@@ -260,6 +260,10 @@ def text_mutants(seed, tier, cases):
             out.append(''.join(t))
         else:
             out.append(' '.join(rng.choice(toks) for _ in range(rng.randint(1, 30))))
+    # nested choice groups: generation time must not double with every level (defect F12: 60 levels never finished)
+    for dd in (10, 24, 60):
+        out.append('@export\nA = ' + '(' * dd + "'a'|'b'" + ")|'b'" * (dd - 1) + ');')
+        out.append('@export\nA = ' + '[' * dd + "x:X|'b'" + "]|'b'" * (dd - 1) + "];\nX = 'x';")
     # include cycles through a rule that is defined twice (the second definition breaks the cycle only for a checker that looks
     # at the last definition of a name), includes of undefined / char / extern rules
     out += ["A = >B; B = >A; B = 'x';", "@export S = 's' [>S]; S = 's';", "A = >B | 'a'; B = >Cc; Cc = >A; Cc = 'c'; A = 'z';",
@@ -325,11 +329,15 @@ def run_model_gen(cases, d):
     return res
 
 
-def run_impl_gen(items, d, timeout=900):
+def run_impl_gen(items, d, timeout=None):
     """items: (id, text, derives). Returns {id: (class, detail)}; survives aborts (stack overflow) by restarting."""
     res = {}
     remaining = list(items)
     rounds = 0
+    if timeout is None:
+        # the generator answers small grammars in milliseconds: 60 s + 50 ms per text tells a hang from a slow machine
+        # (a hang costs the budget once per hanging text)
+        timeout = 60 + 0.05 * len(items)
     while remaining and rounds < 40:
         rounds += 1
         lst = os.path.join(d, 'implgen.txt')
